@@ -193,7 +193,10 @@ async def _e2e(loop, entries, now, backend, listonly, tmp, result):
         from aioftp.pathio import Node
         for name, isdir, size, delta in entries:
             mtime = max(1, now - delta)
-            n = Node("dir" if isdir else "file", name, ctime=mtime, mtime=mtime, content=[] if isdir else io.BytesIO(b"x"))
+            # creation time differs from the modification time (another year, day and second): a backend or a
+            # listing that reports the wrong one of the two is visible
+            ctime = max(1, mtime - 400 * DAY - 3723) if len(name) % 2 else mtime + 35 * DAY + 61
+            n = Node("dir" if isdir else "file", name, ctime=ctime, mtime=mtime, content=[] if isdir else io.BytesIO(b"x"))
             node.content.append(n)
             truth[name] = ("dir" if isdir else "file", 0 if isdir else size, mtime)
     else:
